@@ -67,6 +67,7 @@ def parseOp (t : String) : Option Op :=
   | ["clr", ks] => some (Op.clear (unhexStrList ks))
   | ["st", n] => n.toInt?.map Op.status
   | ["init", st, h, m] => do pure (Op.init (← parseStatus st) (← parsePairs h) (← parsePairs m))
+  | ["initmap", st, ks, m] => do pure (Op.initMap (← parseStatus st) (unhexStrList ks) (← parsePairs m))
   | ["err", st, o] => do pure (Op.error (← parseStatus st) (← parsePairs o))
   | ["ck", n, o] => some (Op.cookie (unhexStr n) (unhexStr o))
   | _ => Option.none
